@@ -451,6 +451,31 @@ def kani_playback(harness, package=None, flags=None, repo=None, timeout=600):
     return {"test": txt, "replayed": replayed, "out_tail": both[-3000:]}
 
 
+def witness_search(pid, repo=None, timeout=600):
+    """Verus gives no model: run the real public entry points of the CURRENT tree natively against executable
+    references over a generated input family (witness/witness.rs). Returns a replayable description or None.
+    Never an alarm by itself — only attaches an input to a violation the verifier already reported."""
+    repo = repo or REPO
+    os.makedirs(WORK, exist_ok=True)
+    sc = os.path.join(WORK, "witness-" + tree_hash(repo))
+    for x in os.listdir(WORK):
+        if x.startswith("witness-") and os.path.join(WORK, x) != sc:
+            shutil.rmtree(os.path.join(WORK, x), ignore_errors=True)
+    if not os.path.exists(sc):
+        rc, o, e, _ = sh(["rsync", "-a", "--exclude", "target", "--exclude", ".git", "--exclude", "fuzz", "--exclude", "assets",
+                          repo.rstrip("/") + "/", sc + "/"])
+        if rc != 0:
+            return None
+    os.makedirs(os.path.join(sc, "examples"), exist_ok=True)
+    shutil.copy(os.path.join(VERIF, "witness", "witness.rs"), os.path.join(sc, "examples", "vwitness.rs"))
+    rc, out, err, dt = sh(["cargo", "run", "--offline", "--release", "--example", "vwitness", pid], cwd=sc, timeout=timeout)
+    m = re.search(r"^WITNESS (\S+) (.*)$", out, re.M)
+    if not m:
+        return None
+    return ("failing input found by the native witness search (real library built from the current tree, "
+            "witness/witness.rs, `cargo run --release --example vwitness " + pid + "`):\n  " + m.group(2) + "\n")
+
+
 if __name__ == "__main__":
     if sys.argv[1] == "verus":
         r = run_verus_unit(sys.argv[2], int(sys.argv[3]) if len(sys.argv) > 3 else 200, "--probe" in sys.argv)
